@@ -1,7 +1,7 @@
 def _conclusive(run):
     """networked cases are re-run by the harness before they are given up: a run in which more than a
     quarter of them stay inconclusive says nothing and must not pass silently"""
-    net = sum(run.arms.get(k, 0) for k in ("raft1", "kill", "net"))
+    net = sum(run.arms.get(k, 0) for k in ("raft1", "kill", "net", "redir"))
     bad = run.inconclusive
     run.oblig("networked-cases-conclusive", bad <= max(2, (net + bad) // 4),
               "%d inconclusive of %d networked cases" % (bad, net + bad))
@@ -10,14 +10,17 @@ def _conclusive(run):
 CHECK = {
     "suites": [
         suite("fsm", "c01", 400, 6000, stdin=True),
+        suite("redir", "c01", 3, 18, stdin=True, args=["-kind", "redir"], timeout={"quick": 600, "thorough": 1500}),
         suite("raft1", "c01", 0, 30, stdin=True, tiers=["thorough"], args=["-kind", "raft1"], timeout={"thorough": 1200}),
         suite("kill", "c01", 0, 16, stdin=True, tiers=["thorough"], args=["-kind", "kill"], timeout={"thorough": 1200}),
         suite("net", "c01", 0, 24, stdin=True, tiers=["thorough"], args=["-kind", "net"], timeout={"thorough": 1200}),
     ],
+    "gen": [{"pkg": "extract_c01", "out": "lean/ClusterVerif/Gen/C01Commit.lean"}],
     "extra": [_conclusive],
     "search_seeds": {"quick": 3, "thorough": 1},
     "lean_sources": ["ClusterVerif/Model/Pin.lean", "ClusterVerif/Model/C01.lean", "ClusterVerif/Spec/C01.lean",
-                     "ClusterVerif/Lemmas/C01.lean", "ClusterVerif/Lemmas/PinMap.lean"],
+                     "ClusterVerif/Lemmas/C01.lean", "ClusterVerif/Lemmas/PinMap.lean",
+                     "ClusterVerif/Model/C01Commit.lean", "ClusterVerif/Lemmas/C01Commit.lean", "ClusterVerif/Gen/C01Commit.lean"],
     "rule": "one case = one history: a committed sequence of 0-60 pin/unpin LogOps over 6 CIDs (all pin types, modes/depths incl. disagreeing ones, "
             "allocation lists 0-4, metadata incl. empty key/value, expiry zero/unix-zero/past/future, reference and update cids of both CID versions, "
             "user allocations, tracing on/off) and a script of events on 1-3 replicas (apply next entry, Snapshot(), Persist(), install the newest "
